@@ -166,6 +166,7 @@ class C15(Prop):
                     exp = dict(doc, users=[dict(u, id="<Type:float64>") if u["name"] == who else u for u in users], total="<Any value>")
                 m = G.op_match_doc(r.choice(["json", "standjson"]), 0, t, json.dumps(doc).encode(), r.choice(["string", "bytes"]), ms)
                 m["exp"] = json.dumps(exp)
+                m["mayerr"] = True        # "either reports an error or ...": a library that rejects such paths keeps the property
                 ops.append(m)
             if r.chance(1, 3):
                 # YAML: container placeholders at paths of different depth, deeper first
@@ -245,7 +246,8 @@ class C15(Prop):
                     fails.append({"msg": "jsonset %d: the caller's bytes were modified" % idx})
             else:
                 if not kv["pre"].startswith("ok:"):
-                    fails.append({"msg": "obs %d: matchers on existing disjoint paths failed: %s" % (idx, kv["pre"][:20])})
+                    if not raw.get("mayerr"):
+                        fails.append({"msg": "obs %d: matchers on existing disjoint paths failed: %s" % (idx, kv["pre"][:20])})
                     continue
                 try:
                     got = json.loads(unhx(kv["pre"][3:]).decode("utf-8", "surrogateescape"))
